@@ -58,7 +58,8 @@ def convert_engine(b, end, idx):
     mem_base = word(b["mem_base"]) if b["mem"] else 0
     if b["fixed"]:
         # the fixed-metadata VM stores the packet's start / end addresses at its two offsets (C09)
-        for off, v in ((b["fixed"][0], word(b["mem_base"])), (b["fixed"][1], (word(b["mem_base"]) + len(b["mem"])) % (1 << 64))):
+        # (null for an empty packet, under every engine)
+        for off, v in ((b["fixed"][0], mem_base), (b["fixed"][1], (mem_base + len(b["mem"])) % (1 << 64))):
             if off + 8 > len(mb):
                 return None, "fixed-metadata buffer too small for its offsets"
             mb[off:off + 8] = word_json(v)
